@@ -532,7 +532,7 @@ fn process_world(ctx: &Ctx, scn: &Scn, pp: &ProcPart, ex: &mut Exec, fp: &mut Fn
     // DHW indicator: presence must agree (value compared in the library world with its threshold guards)
     let has = |r: &Value, k: &str| r.pointer(&format!("/misc/{}", k)).is_some();
     if has(&r1, "fraccion_renovable_demanda_acs_nrb") != has(&r2, "fraccion_renovable_demanda_acs_nrb") {
-        let near = c1.is_some() && dhw_fragile(&r1, slack + crate::cmp::C_ABS * EPS * sc.e_an);
+        let near = c1.is_some() && dhw_fragile(&r1, slack + sc.c_abs() * EPS * sc.e_an);
         if !near {
             return Some(Violation::new(
                 "roundtrip_result",
@@ -583,7 +583,7 @@ fn dhw_fragile(r: &Value, margin: f64) -> bool {
 fn json_mismatch_with_slack(a: &Value, b: &Value, sc: &Scale, slack: f64) -> Option<String> {
     let f = worldp::json_max_factor(a).max(worldp::json_max_factor(b));
     let area = if sc.area > 0.0 { sc.area } else { 1.0 };
-    let tol = crate::cmp::C_ABS * EPS * sc.e_an.max(sc.n_an) * f + 0.0011 + slack * f;
+    let tol = sc.c_abs() * EPS * sc.e_an.max(sc.n_an) * f + 0.0011 + slack * f;
     // by-service weighted energies: amplification |W_carrier| / epus_carrier (see cmp::compare)
     let mut amp = 0.0f64;
     if slack > 0.0 {
@@ -669,7 +669,7 @@ impl Property for C18 {
     fn runs(&self, tier: Tier) -> u64 {
         match tier {
             Tier::Quick => 60_000,
-            Tier::Thorough => 3_000_000,
+            Tier::Thorough => 1_200_000,
         }
     }
 
